@@ -246,7 +246,7 @@ CLAIMED["C12"] = {
     "text": "c12_every_child_reaped_once (every non-detached command is waited for exactly once, for every terminator and length), "
             "c12_detached_never_waited, c12_communicate_never_waits, c12_adapter_drop_holds_nothing (at every wait of an adapter's drop "
             "the parent holds no pipe end at all: stream_stdout/stderr/stdin of a command, stream_stdout/stdin of pipelines of any "
-            "length), c12_popen_drop_holds_nothing. Real runs: unbounded writers to stdout/stderr, cat waiting for EOF, early exits, "
+            "length), c12_popen_drop_holds_nothing, c12_nothing_left_open (no pipe end the library created is held once the handle is gone). Real runs: unbounded writers to stdout/stderr, cat waiting for EOF, early exits, "
             "200000-line producers, drop after 0/10/70000 bytes or everything read, detached or not; zombies via wait4 per child.",
     "note": PIPE_NOTE,
 }
